@@ -17,6 +17,15 @@ PROPS = {
     "C10": dict(runs=[oph("^Harness_C10_")],
                 bounds=["one message from an arbitrary symbolic pre-state (inductive step)", "amounts < 2^128", "strings opaque (any length)"],
                 outside=["amounts >= 2^128"], assumptions=COMMON_ASSUME),
+    "C01": dict(runs=[oph("^Harness_C01_")],
+                bounds=["one arbitrary L1 message (12 kinds, all fields symbolic) from an arbitrary symbolic pre-state", "iterated stores (OutputProposals, BatchInfos): 1 entry quick / 2 thorough in the pre-state", "proof depth 0..1", "registration fee: at most one coin"],
+                outside=["pre-states with more stored outputs/batch infos than the slot bound", "third-party bank sends (bank module)"], assumptions=COMMON_ASSUME + ["module-derived escrow addresses are never message signers", "address derivation is injective (distinct bridge ids give distinct escrows)"]),
+    "C02": dict(runs=[oph("^Harness_C02_|^Harness_C03_FinalizeStep")],
+                bounds=["proof depth 0..2 quick / 0..4 thorough", "double-finalize composition: depth 0..1 each"], outside=["deeper proofs"], assumptions=COMMON_ASSUME),
+    "C03": dict(runs=[oph("^Harness_C03_")],
+                bounds=["proof depth 0..2 quick / 0..4 thorough", "non-standard lengths {0,2} for version, {31,33} for roots/hash/proof item"], outside=["deeper proofs", "collision resistance of sha3 (hash is an uninterpreted function)"], assumptions=COMMON_ASSUME),
+    "C05": dict(runs=[oph("^Harness_C05_|^Harness_C11_ProposeStep|^Harness_C03_FinalizeStep")],
+                bounds=["every int64 duration, every block/proposal time in the protobuf Timestamp range", "frame harnesses: iterated stores 1 entry quick / 2 thorough"], outside=["times outside years 1..9999"], assumptions=COMMON_ASSUME + ["block time is non-decreasing"]),
     "C17": dict(runs=[dict(pkg="./x/ophost/types", overlay="harness/C17", pkgname="types", harness="^Harness_C17_", native=["rt.go.tmpl", "types_native.go.tmpl"])],
                 bounds=["proof depth 0..2 (quick) / 0..4 (thorough)", "three memory layouts of the proof list", "all 64-bit field values, opaque strings of any length"],
                 outside=["proofs deeper than 4"], assumptions=["sha3 is an uninterpreted function: equality of digests is decided by equality of preimage bytes", "address.Module is an uninterpreted injective function"]),
